@@ -189,6 +189,12 @@ def run(ctx, vlib):
                 rec["non_benign_statics"] = offenders
             failing.append(rec)
 
+    if offenders and not failing:
+        # no failing schedule found: the replay of the broken obligation at least names the objects
+        diffs.append(dict(driver="inventory", case="statics inventory of the current sources", implementation="not benign: " + "; ".join(offenders),
+                          model="forallb benign statics = true (T_C19_statics_benign)", judge="UNKNOWN",
+                          why="a mutable object with static storage duration that is written outside static initialisation; %d rounds under ThreadSanitizer showed no race or mismatch (the code that writes it may not be reached by the driver)" % len(res),
+                          write_sites=[dict(static=s_["name"], writes=sorted(set((w[0], w[1]) for w in s_["writes"]))) for s_ in (inv["statics"] if inv else []) if s_["name"] in offenders]))
     samples = [dict(case=l, implementation=o) for l, o, _ in res[:3]]
     if inv is not None:
         nonconst = [s for s in inv["statics"] if s["constness"] == "no"]
@@ -200,7 +206,7 @@ def run(ctx, vlib):
     return dict(evaluations=ops_total + (len(inv["statics"]) if inv else 0), distinct_nontrivial=len(seen),
                 rule="evaluations = serialisation/conversion operations executed concurrently under ThreadSanitizer and re-executed sequentially for comparison, plus the static-storage objects judged by `benign`; non-trivial = distinct (T, seed) rounds whose per-thread result lists all matched the sequential run (distinct result hashes)",
                 samples=samples, classes=classes, failing=failing, diffs=diffs, known_lines=[], notes=notes,
-                broken="translator cross-check (textual scan vs inventory)" if missing else "C19",
+                broken="translator cross-check (textual scan vs inventory)" if missing else "T_C19_statics_benign over the regenerated inventory",
                 extra=dict(non_benign_statics=offenders, text_scan_missing=missing))
 
 
